@@ -13,6 +13,7 @@ mod c06;
 mod c05;
 mod c12;
 mod c15;
+mod c17;
 mod findings;
 
 use report::Report;
@@ -55,6 +56,9 @@ fn run_named(name: &str, tier: &str, seed: u64, standin: bool) -> String {
         (true, "merkle_hash") => { c15::standin_merkle_hash(&mut r); true }
         (true, "merkle_reads") => { c15::standin_merkle_reads(&mut r); true }
         (false, "c15") => { c15::search(&mut r, tier, seed); true }
+        (false, "c17") => { c17::search_c17(&mut r, tier); true }
+        (false, "c18") => { c17::search_c18(&mut r, tier); true }
+        (false, "c07") => { c17::search_c07(&mut r, tier); true }
         _ => false,
     };
     if !known {
@@ -93,6 +97,9 @@ fn replay_file(path: &str) -> String {
         "c15" => { c15::search(&mut r, "thorough", cex["seed"].as_u64().unwrap_or(0)); true }
         "merkle_hash" => { c15::standin_merkle_hash(&mut r); true }
         "merkle_reads" => { c15::standin_merkle_reads(&mut r); true }
+        "c17" => { c17::search_c17(&mut r, "thorough"); true }
+        "c18" => { c17::search_c18(&mut r, "thorough"); true }
+        "c07" => { c17::search_c07(&mut r, "thorough"); true }
         _ => false,
     };
     if !known { return format!("{{\"error\": \"unknown search {}\"}}", search); }
